@@ -18,6 +18,10 @@ CHECKS = {
          "runtime monitor of the full interleaved event log (consumer call/return markers + generator-side effects and expression evaluations) vs the reference coroutine, every truncation history, plus no-event-after-stop",
          "Exploration: effect-dense programs (variables mutated after being yielded) under every tape path and histories drain / K=0,1,2,4 / 2 calls after exhaustion; full-trace equality with the reference coroutine decides which statements ran inside which MoveNext.",
          E1NOTE),
+ "C03": ("E1 diff-trace",
+         "runtime monitor of variable-read events (tr.R) and yielded values of scope-stressing programs vs the reference coroutine (Go's own scoping is the oracle)",
+         "Exploration: directed shadowing/capture cases + PRNG programs over a 4-name pool (shadowing in nested blocks, if/for/switch/type-switch initialisers, range variables, case clauses, closures created before a yield and called after it, yielding post statements reading body-shadowed names); full-trace equality under every tape path.",
+         E1NOTE + "Scratch modules use language version go1.23 (per-iteration loop variables): the single known finding of C03 depends on that."),
  "C07": ("E1 diff-trace + hook H1",
          "runtime differential monitor between the two real artefacts: unoptimised stage-1 package (snapshot by the verif hook inside the real Compile) vs optimised package, full interleaved traces; build of the final package",
          "Exploration: all E1 streams + optimiser-directed cases; stage-1 and final packages are both built and executed under every tape path and history; traces must be identical and the final package must build whenever stage-1 does; the evidence counts in how many programs the optimiser actually changed the text.",
